@@ -269,6 +269,28 @@ theorem qn_inj (ns a b : Text) : qn ns a = qn ns b ↔ a = b := by
   simp [qn]
 
 
+/-! ### text XML can carry -/
+theorem xmlText_valid (t : Text) : (xmlText t).all isXmlChar = true := by
+  induction t with
+  | nil => rfl
+  | cons c cs ih =>
+    simp only [xmlText, List.map_cons, List.all_cons, Bool.and_eq_true] at ih ⊢
+    refine ⟨?_, ih⟩
+    by_cases h : isXmlChar c = true
+    · simp [h]
+    · have h' : isXmlChar c = false := by simpa using h
+      simp only [h']
+      show isXmlChar (Char.ofNat 65533) = true
+      decide
+
+theorem xmlText_of_valid (t : Text) (h : t.all isXmlChar = true) : xmlText t = t := by
+  induction t with
+  | nil => rfl
+  | cons c cs ih =>
+    simp only [List.all_cons, Bool.and_eq_true] at h
+    simp [xmlText, h.1] 
+    exact ih h.2
+
 /-! ### declared members of a fault subclass -/
 theorem findTag_membersXml (t : Text) (ms : List (Text × Text)) (h : ∀ m ∈ ms, m.1 ≠ t) :
     findTag t (membersXml ms) = none := by
@@ -283,7 +305,7 @@ theorem findTag_membersXml (t : Text) (ms : List (Text × Text)) (h : ∀ m ∈ 
 theorem xmlToFault11_faultToXml11 (F : Facts09) (hp : ':' ∉ F.env11Prefix) (he : F.emptyTest = .isNone) (f : FaultV)
     (hm : ∀ m ∈ f.members, m.1 ≠ T "detail") :
     xmlToFault11 (faultToXml11 F f) =
-      some { code := f.code, str := f.str, actor := f.actor, detail := normTop11 f.detail, lang := T "en" } := by
+      some { code := f.code, str := xmlTextF F f.str, actor := xmlTextF F f.actor, detail := normTop11 f.detail, lang := T "en" } := by
   have e1 : (T "faultcode" = T "faultstring") = False := by decide
   have e2 : (T "faultcode" = T "faultactor") = False := by decide
   have e3 : (T "faultcode" = T "detail") = False := by decide
@@ -324,7 +346,7 @@ theorem xmlToFault12_faultToXml12 (F : Facts09) (hp : ':' ∉ F.env12Prefix) (he
     (hs : splitOn '.' f.code = first :: rest) (hf : first = T "Client" ∨ first = T "Server")
     (hm : ∀ m ∈ f.members, m.1 ≠ tDetail12) :
     ∃ x, faultToXml12 F f = some x ∧
-      xmlToFault12 x = some { code := f.code, str := f.str, actor := f.actor,
+      xmlToFault12 x = some { code := f.code, str := xmlTextF F f.str, actor := xmlTextF F f.actor,
                               detail := f.detail.map normKvs, lang := f.lang } := by
   have hcode : joinWith '.' (first :: rest) = f.code := by rw [← hs, joinWith_splitOn]
   have e1 : (tCode = tReason) = False := by decide
@@ -444,7 +466,7 @@ theorem wsgi_erase (F : Facts09) (t : Text) (h : F.faultString = .constant t) (p
 /-! ### the spyne clients -/
 theorem client11_encode (F : Facts09) (he : F.emptyTest = .isNone) (f : FaultV) (hm : ∀ m ∈ f.members, m.1 ≠ T "detail") :
     client11 (.xml (envelope ns11 [faultToXml11 F f])) =
-      some { code := F.env11Prefix ++ ':' :: f.code, str := ctorString f.str, detail := normTop11 f.detail } := by
+      some { code := F.env11Prefix ++ ':' :: f.code, str := ctorString (xmlTextF F f.str), detail := normTop11 f.detail } := by
   have e1 : (T "faultcode" = T "faultstring") = False := by decide
   have e3 : (T "faultcode" = T "detail") = False := by decide
   have e5 : (T "faultstring" = T "detail") = False := by decide
@@ -490,7 +512,7 @@ theorem client12_encode (F : Facts09) (he : F.emptyTest = .isNone) (hn : F.clien
     ∃ x, faultToXml12 F f = some x ∧
       client12 F (.xml (envelope ns12 [x])) =
         some { code := joinWith '.' ((F.env12Prefix ++ ':' :: (if first = T "Client" then T "Sender" else T "Receiver")) :: rest),
-               str := ctorString (if F.client12Strip then strip f.str else f.str),
+               str := ctorString (if F.client12Strip then strip (xmlTextF F f.str) else xmlTextF F f.str),
                detail := f.detail.map normKvs } := by
   have e1 : (tCode = tReason) = False := by decide
   have e3 : (tCode = tDetail12) = False := by decide
